@@ -9,10 +9,12 @@ package fatops
 // every file's size and content digest, and the number of clusters in use; at the end the FAT.
 //
 // Calls on which a listed finding's trigger fires are not generated (the model refuses them as
-// the specification says, the code accepts them): write / truncating open of a directory
-// (fat-write-to-directory), rename onto an existing directory (fat-rename-over-directory), a
-// name equal to its parent directory's (fat-name-equals-parent), names with coinciding 8.3
-// forms (fat-sfn-alias); every handle is closed before the next call (fat-stale-parent-snapshot).
+// the specification says, the code accepts them): a name equal to its parent directory's
+// (fat-name-equals-parent), names with coinciding 8.3 forms (fat-sfn-alias); every handle is
+// closed before the next call (fat-stale-parent-snapshot). Write / truncating open of a directory
+// (fat-write-to-directory) and rename onto an existing directory (fat-rename-over-directory) are
+// generated once the engine's probes see the code refuse them (genDirWrite / genRenameOntoDir):
+// the model answers isdir and changes nothing, and so must the code.
 
 import (
 	"fmt"
@@ -85,6 +87,13 @@ type treeRun struct {
 	bad   bool // the image stopped being readable: the case is dropped
 	// zero-length writes are drawn off the trigger of fat-empty-write-not-noop while that is in the tree
 	emptyAsFound bool
+	// the code refuses a writing open of a directory / a rename onto an existing directory (probed
+	// per run): such calls are drawn too
+	genDirWrite      bool
+	genRenameOntoDir bool
+	// the code walks a path whose last component equals its parent's name like any other (probed
+	// per run; as found 'x/x' is taken for the directory x itself: fat-name-equals-parent)
+	genEqParent bool
 }
 
 func (t *treeRun) isDir(p string) bool {
@@ -259,7 +268,7 @@ func equalsParent(p string) bool {
 // randTok draws one call that triggers no listed finding; "" = draw again.
 func (t *treeRun) randTok(r *hx.Rng, bpc int, tight bool) string {
 	tok := t.randTok0(r, bpc, tight)
-	if f := strings.Split(tok, ":"); len(f) > 1 && equalsParent(f[1]) {
+	if f := strings.Split(tok, ":"); len(f) > 1 && equalsParent(f[1]) && !t.genEqParent {
 		return ""
 	}
 	return tok
@@ -275,7 +284,7 @@ func (t *treeRun) randTok0(r *hx.Rng, bpc int, tight bool) string {
 	pickName := func(pool []string) string {
 		for k := 0; k < 8; k++ {
 			n := hx.Pick(r, pool)
-			if !sameName(n, lastOf(dir)) {
+			if t.genEqParent || !sameName(n, lastOf(dir)) {
 				return n
 			}
 		}
@@ -305,7 +314,7 @@ func (t *treeRun) randTok0(r *hx.Rng, bpc int, tight bool) string {
 		return "m:" + joinP(dir, n)
 	case k < 4: // mkdir -p over several missing components
 		a, b := pickName(treeDirs), hx.Pick(r, treeDirs)
-		if a == "" || sameName(a, b) {
+		if a == "" || (sameName(a, b) && !t.genEqParent) {
 			return ""
 		}
 		return "M:" + joinP(joinP(dir, a), b)
@@ -316,6 +325,12 @@ func (t *treeRun) randTok0(r *hx.Rng, bpc int, tight bool) string {
 		}
 		return "c:" + joinP(dir, n)
 	case k < 13:
+		if t.genDirWrite && r.Chance(8) {
+			// a write addressed to a directory: refused, nothing changes
+			if dn := existing(true, false); dn != "" {
+				return fmt.Sprintf("w:%s:%d:%d:%d", joinP(dir, dn), r.Intn(bpc+1), 1+r.Intn(2*bpc), r.Intn(251))
+			}
+		}
 		n := existing(false, true)
 		if n == "" || r.Chance(5) {
 			n = pickName(treeFiles) // possibly missing: refused
@@ -347,7 +362,8 @@ func (t *treeRun) randTok0(r *hx.Rng, bpc int, tight bool) string {
 		}
 		return fmt.Sprintf("w:%s:%d:%d:%d", joinP(dir, n), off, ln, r.Intn(251))
 	case k < 14:
-		n := existing(false, true)
+		wantDir := t.genDirWrite && r.Chance(30) // a truncating open of a directory: refused
+		n := existing(wantDir, !wantDir)
 		if n == "" {
 			return ""
 		}
@@ -371,15 +387,21 @@ func (t *treeRun) randTok0(r *hx.Rng, bpc int, tight bool) string {
 			pool = treeDirs
 		}
 		n := pickName(pool)
-		if n == "" || t.isDir(joinP(dir, n)) {
+		if t.genRenameOntoDir && r.Chance(15) {
+			// onto an existing directory (the source a file or another directory): refused, nothing changes
+			if n = existing(true, false); sameName(n, o) {
+				return ""
+			}
+		}
+		if n == "" || (t.isDir(joinP(dir, n)) && !t.genRenameOntoDir) {
 			return "" // onto a directory: fat-rename-over-directory
 		}
 		for _, ch := range t.childrenOf(joinP(dir, o)) {
-			if sameName(ch.Name, n) {
+			if sameName(ch.Name, n) && !t.genEqParent {
 				return "" // a directory would get the name of one of its children: fat-name-equals-parent below it
 			}
 		}
-		if t.exists(joinP(dir, n)) && needsTail(n) {
+		if t.exists(joinP(dir, n)) && needsTail(n) && !t.isDir(joinP(dir, n)) {
 			// a rename that REPLACES an entry whose 8.3 form carries a numeric tail gets the tail ~2 in
 			// the code (renameEntry scans the entry it is about to drop as a conflict); the model's entry
 			// spelling is a function of the name (~1): such calls are left to the oracle histories
@@ -466,7 +488,7 @@ func (e *eng) corrTree(r *hx.Rng) {
 			rootChain := u32s(rep.Root.Chain)
 			rootBase := rootBaseSlots(v, rep)
 			rootPre := rootPreHex(v, rep)
-			t := &treeRun{v: v, rep: rep, emptyAsFound: e.emptyAsFound}
+			t := &treeRun{v: v, rep: rep, emptyAsFound: e.emptyAsFound, genDirWrite: !e.dirWriteAsFound, genRenameOntoDir: !e.renameOverDirAsFound, genEqParent: !e.eqParentAsFound}
 			free := func() int {
 				f := 0
 				for cl := uint32(2); cl < lim; cl++ {
@@ -498,6 +520,43 @@ func (e *eng) corrTree(r *hx.Rng) {
 				}
 				t.do("m:sub/Deep Directory")
 				t.do("c:sub/Deep Directory/b.txt")
+				if t.genDirWrite {
+					// writes and truncating opens addressed to a directory: refused (is a directory), nothing changes
+					t.do("w:sub:0:10:3")
+					t.do(fmt.Sprintf("w:sub/Deep Directory:5:%d:7", bpc+1))
+					t.do("t:sub")
+					t.do("t:sub/Deep Directory")
+					t.do("w:sub:0:0:0")
+					t.do("c:sub/C")
+				}
+				if t.genRenameOntoDir {
+					// renames onto an existing directory: of a file, of an empty and of a non-empty directory
+					t.do("r:sub/" + ln[0] + ":Deep Directory")
+					t.do("m:d2")
+					t.do("c:A.TXT")
+					t.do("r:A.TXT:sub")
+					t.do("r:d2:sub")
+					t.do("r:sub:d2")
+					t.do("r:A.TXT:d2")
+					t.do("c:sub/readme.md")
+					t.do("r:sub/Deep Directory:readme.md") // a directory onto a file: the file is replaced, as before
+					t.do("c:d2/b.txt")
+				}
+				if t.genEqParent {
+					// names equal to the name of the directory they live in
+					t.do("m:same")
+					t.do("c:same/other.txt")
+					t.do("c:same/same")
+					t.do(fmt.Sprintf("w:same/same:0:%d:9", bpc+100))
+					t.do("r:same/same:moved")
+					t.do("r:same/moved:same")
+					t.do("d:same/same")
+					t.do("M:same/same/same")
+					t.do("c:same/same/same/same")
+					t.do("d:same/same/same/same")
+					t.do("d:same/same/same")
+					t.do("d:same/same")
+				}
 			case 2: // zero-length writes: on a new empty file, after O_TRUNC, inside / at EOF of a non-empty file; then new files and directories
 				kind = "zero-length"
 				t.do("c:A.TXT")
